@@ -12,6 +12,7 @@ pub mod c13;
 pub mod c14;
 pub mod c16;
 pub mod c17;
+pub mod c18;
 pub mod c19;
 pub mod common;
 pub mod c20;
@@ -35,6 +36,7 @@ pub fn run(prop: &str, tier: Tier, replay: Option<Value>) -> ! {
         "C14" => c14::run(tier, replay),
         "C16" => c16::run(tier, replay),
         "C17" => c17::run(tier, replay),
+        "C18" => c18::run(tier, replay),
         "C19" => c19::run(tier, replay),
         "C20" => c20::run(tier, replay),
         _ => crate::engine::report::machinery_fail(&format!("unknown property {prop}")),
@@ -46,6 +48,7 @@ pub fn worker(kind: &str) -> Handler {
         "c01" => c01::worker(),
         "c14" => c14::worker(),
         "c17" => c17::worker(),
+        "c18" => c18::worker(),
         "c19" => c19::worker(),
         "script" => common::script_worker(),
         _ => crate::engine::report::machinery_fail(&format!("unknown worker kind {kind}")),
